@@ -5,7 +5,7 @@
 
 package printer
 
-//@ props C19 C18
+//@ props C19 C18 C01
 
 // Indentation is never negative (Config.Width < 0 is outside the
 // configuration space of the properties) and the printer has its writer.
